@@ -110,10 +110,23 @@ pub fn parse_resp_frame(data: &[u8]) -> Result<Option<(RespFrame, usize)>> {
     parse_frame(data)
 }
 
+/// Maximum nesting of aggregate frames; deeper input is a protocol error rather than a
+/// stack overflow
+const MAX_NESTING_DEPTH: usize = 128;
+
 /// Internal frame parser
 fn parse_frame(data: &[u8]) -> Result<Option<(RespFrame, usize)>> {
+    parse_frame_at(data, 0)
+}
+
+/// Parse a frame that sits `depth` aggregates deep
+fn parse_frame_at(data: &[u8], depth: usize) -> Result<Option<(RespFrame, usize)>> {
     if data.is_empty() {
         return Ok(None);
+    }
+    
+    if depth > MAX_NESTING_DEPTH {
+        return Err(FerrousError::Protocol("Frames nested too deeply".into()));
     }
     
     match data[0] {
@@ -121,12 +134,12 @@ fn parse_frame(data: &[u8]) -> Result<Option<(RespFrame, usize)>> {
         b'-' => parse_error(data),
         b':' => parse_integer(data),
         b'$' => parse_bulk_string(data),
-        b'*' => parse_array(data),
+        b'*' => parse_array(data, depth),
         b'_' => parse_null(data),
         b'#' => parse_boolean(data),
         b',' => parse_double(data),
-        b'%' => parse_map(data),
-        b'~' => parse_set(data),
+        b'%' => parse_map(data, depth),
+        b'~' => parse_set(data, depth),
         _ => Err(FerrousError::Protocol(format!(
             "Invalid RESP type byte: {}", data[0] as char
         ))),
@@ -201,7 +214,7 @@ fn parse_bulk_string(data: &[u8]) -> Result<Option<(RespFrame, usize)>> {
 }
 
 /// Parse an array: *2\r\n$3\r\nfoo\r\n$3\r\nbar\r\n
-fn parse_array(data: &[u8]) -> Result<Option<(RespFrame, usize)>> {
+fn parse_array(data: &[u8], depth: usize) -> Result<Option<(RespFrame, usize)>> {
     let (len_line, header_consumed) = match parse_line(data, 1)? {
         Some(v) => v,
         None => return Ok(None),
@@ -226,7 +239,7 @@ fn parse_array(data: &[u8]) -> Result<Option<(RespFrame, usize)>> {
     let mut total_consumed = header_consumed;
     
     for _ in 0..len {
-        match parse_frame(&data[total_consumed..])? {
+        match parse_frame_at(&data[total_consumed..], depth + 1)? {
             Some((frame, consumed)) => {
                 elements.push(frame);
                 total_consumed += consumed;
@@ -276,7 +289,7 @@ fn parse_double(data: &[u8]) -> Result<Option<(RespFrame, usize)>> {
 }
 
 /// Parse map (RESP3): %2\r\n+key1\r\n:1\r\n+key2\r\n:2\r\n
-fn parse_map(data: &[u8]) -> Result<Option<(RespFrame, usize)>> {
+fn parse_map(data: &[u8], depth: usize) -> Result<Option<(RespFrame, usize)>> {
     let (len_line, header_consumed) = match parse_line(data, 1)? {
         Some(v) => v,
         None => return Ok(None),
@@ -292,7 +305,7 @@ fn parse_map(data: &[u8]) -> Result<Option<(RespFrame, usize)>> {
     
     for _ in 0..len {
         // Parse key
-        let key = match parse_frame(&data[total_consumed..])? {
+        let key = match parse_frame_at(&data[total_consumed..], depth + 1)? {
             Some((frame, consumed)) => {
                 total_consumed += consumed;
                 frame
@@ -301,7 +314,7 @@ fn parse_map(data: &[u8]) -> Result<Option<(RespFrame, usize)>> {
         };
         
         // Parse value
-        let value = match parse_frame(&data[total_consumed..])? {
+        let value = match parse_frame_at(&data[total_consumed..], depth + 1)? {
             Some((frame, consumed)) => {
                 total_consumed += consumed;
                 frame
@@ -316,7 +329,7 @@ fn parse_map(data: &[u8]) -> Result<Option<(RespFrame, usize)>> {
 }
 
 /// Parse set (RESP3): ~2\r\n+elem1\r\n+elem2\r\n
-fn parse_set(data: &[u8]) -> Result<Option<(RespFrame, usize)>> {
+fn parse_set(data: &[u8], depth: usize) -> Result<Option<(RespFrame, usize)>> {
     let (len_line, header_consumed) = match parse_line(data, 1)? {
         Some(v) => v,
         None => return Ok(None),
@@ -331,7 +344,7 @@ fn parse_set(data: &[u8]) -> Result<Option<(RespFrame, usize)>> {
     let mut total_consumed = header_consumed;
     
     for _ in 0..len {
-        match parse_frame(&data[total_consumed..])? {
+        match parse_frame_at(&data[total_consumed..], depth + 1)? {
             Some((frame, consumed)) => {
                 elements.push(frame);
                 total_consumed += consumed;
